@@ -241,6 +241,21 @@ def generator_hook(eng, func, fr):
     from .engine import BreakSig, ContinueSig, ReturnSig
 
     body = _docstring_free(func.node.body)
+    if len(body) == 1 and isinstance(body[0], ast.Expr) and isinstance(body[0].value, ast.YieldFrom):
+        # `yield from <iterable>` as the whole body: the generator hands out exactly the items of that iterable, each when it is
+        # requested.  A lazy iterable (a generator expression kept lazy by genexp_hook, another lazy generator) stays the same lazy
+        # sequence; the operand is evaluated at creation (same stated difference to CPython as for the loop form below).
+        eng.genexp_hook = getattr(eng, "genexp_hook", None) or genexp_hook
+        v = eng.ev(body[0].value.value, fr)
+        if _has_repo_iter(eng, v):
+            v = eng.call(eng.getattr_(v, "__iter__"), [], {})
+        if isinstance(v, LazySeq):
+            eng.assumptions.add("C19-model: a generator function `yield from <lazy iterable>` is that lazy iterable (operand evaluated at creation)")
+            v.what = "generator function (yield from)"
+            return v
+        if isinstance(v, (Iter, PList)) or hasattr(v, "__pyvc_sequence__"):
+            return v if isinstance(v, Iter) else Iter(v)
+        return NotImplemented
     if len(body) != 1 or not isinstance(body[0], ast.For) or body[0].orelse:
         return NotImplemented
     loop = body[0]
@@ -783,6 +798,7 @@ def _np_searchsorted(eng, args, kwargs):
     side = kwargs.get("side", "left")
     if side not in ("left", "right"):
         raise Unsupported("np.searchsorted with a symbolic / invalid side")
+    a = _as_sorted_operand(eng, a)
     if not isinstance(a, SArr):
         raise Unsupported("np.searchsorted on this kind of array")
     kind = "real" if "real" in (a.kind, kind_of(v)) else "int"
@@ -802,12 +818,133 @@ def _np_searchsorted(eng, args, kwargs):
     return i
 
 
+def _as_sorted_operand(eng, a):
+    """1-D operand of searchsorted / bisect as an SArr (a symbolic-length list of scalars is read in place)"""
+    if isinstance(a, PList) and a.items is None and not a.tup and a.kinds[0] in ("int", "real"):
+        return SArr(a.cols[0], a.n, a.kinds[0])
+    return a
+
+
+def _arr_searchsorted(eng, recv, args, kwargs):
+    """a.searchsorted(v, side=...) == np.searchsorted(a, v, side=...)"""
+    return _np_searchsorted(eng, [recv] + list(args), kwargs)
+
+
+def _bisect(side):
+    def model(eng, args, kwargs):
+        """bisect.bisect_left / bisect_right (= bisect.bisect)(a, x, lo=0, hi=len(a)): the insertion index inside a[lo:hi]; the ascending
+        order of that part is an obligation of the call, as for np.searchsorted (the result is unspecified otherwise)"""
+        if set(kwargs) - {"lo", "hi"} or kwargs.get("key") is not None or not 2 <= len(args) <= 4:
+            raise Unsupported("bisect form")
+        a = _as_sorted_operand(eng, args[0])
+        lo = args[2] if len(args) > 2 else kwargs.get("lo", 0)
+        hi = args[3] if len(args) > 3 else kwargs.get("hi")
+        if not isinstance(a, SArr):
+            raise Unsupported("bisect on this kind of sequence")
+        n = a.nz()
+        loz = to_z3(lo, "int")
+        hiz = n if hi is None else to_z3(hi, "int")
+        if isinstance(lo, Sym) or (isinstance(lo, int) and lo < 0):
+            if not eng.branch(eng.sbool(loz >= 0)):
+                raise ProgExc(ValueError, "lo must be non-negative")
+        used(eng, "bisect.bisect_left / bisect_right(a, x, lo, hi) on an ascending sequence: the insertion index i in [lo, hi] (left: a[lo:i] < x <= a[i:hi], "
+                  "right: a[lo:i] <= x < a[i:hi]); ascending order of a[lo:hi] is proved at the call (cross-checked: tools/xcheck_C19_models.py)")
+        v = args[1]
+        kind = "real" if "real" in (a.kind, kind_of(v)) else "int"
+        if kind_of(v) not in ("int", "real") or a.kind not in ("int", "real"):
+            raise Unsupported("bisect of a non-scalar value")
+        vz = to_z3(v, kind)
+        at = lambda t: (z3.ToReal(z3.Select(a.arr, t)) if kind == "real" and a.kind == "int" else z3.Select(a.arr, t))
+        p, q = z3.Int(fresh_name("bsp")), z3.Int(fresh_name("bsq"))
+        eng.prove(eng.site("bisect-on-an-ascending-sequence"), z3.And(hiz <= n, z3.ForAll([p, q], z3.Implies(z3.And(loz <= p, p <= q, q < hiz), at(p) <= at(q)))), "safety")
+        i = fresh("int", "bs")
+        j = z3.Int(fresh_name("bsj"))
+        below, above = ((lambda x: x < vz), (lambda x: x >= vz)) if side == "left" else ((lambda x: x <= vz), (lambda x: x > vz))
+        top = z3.If(hiz >= loz, hiz, loz)  # an empty part: the loop `while lo < hi` does not run, the answer is lo
+        eng.assume(z3.And(i.z >= loz, i.z <= top))
+        eng.assume(z3.ForAll([j], z3.Implies(z3.And(j >= loz, j < i.z), below(at(j))), patterns=[z3.Select(a.arr, j)]))
+        eng.assume(z3.ForAll([j], z3.Implies(z3.And(j >= i.z, j < hiz), above(at(j))), patterns=[z3.Select(a.arr, j)]))
+        return i
+
+    return model
+
+
+def _arr_tolist(eng, recv, args, kwargs):
+    """a.tolist() of a 1-D array of symbolic length: a new list of the same scalars"""
+    if args or kwargs or not isinstance(recv, SArr) or hasattr(recv, "__pyvc_getitem__"):
+        raise Unsupported("ndarray.tolist form")
+    used(eng, "ndarray.tolist() of a 1-D array: a new list with the same elements")
+    p = PList()
+    p.items, p.cols, p.kinds, p.n, p.tup = None, [recv.arr], [recv.kind], recv.n, False
+    return p
+
+
+def _b_divmod(eng, args, kwargs):
+    """divmod(a, b) == (a // b, a % b)"""
+    if len(args) != 2 or kwargs:
+        raise ProgExc(TypeError, "divmod expected 2 arguments")
+    return (eng.binop(ast.FloorDiv(), args[0], args[1]), eng.binop(ast.Mod(), args[0], args[1]))
+
+
+def _op_index(eng, args, kwargs):
+    """operator.index(x): x itself for an int (bool: its int value); TypeError for anything that is not an integer"""
+    (x,) = args
+    if isinstance(x, bool):
+        return int(x)
+    if isinstance(x, int) or (isinstance(x, Sym) and x.kind == "int"):
+        return x
+    if isinstance(x, Sym) and x.kind == "bool":
+        return Sym(z3.If(x.z, z3.IntVal(1), z3.IntVal(0)), "int")
+    try:
+        import numpy as _np
+
+        if isinstance(x, _np.integer):
+            return int(x)
+    except ImportError:  # pragma: no cover
+        pass
+    if kind_of(x) == "real" or x is None or isinstance(x, (str, slice, PList, SArr)):
+        raise ProgExc(TypeError, "object cannot be interpreted as an integer")
+    raise Unsupported(f"operator.index of {type(x).__name__}")
+
+
+def _range_getitem(eng, rng, idx):
+    """range(lo, hi, step)[i] / [a:b:c] with symbolic bounds (concrete steps): CPython's compute_item / compute_slice"""
+    n, get = models.as_sequence(eng, rng)
+    if isinstance(idx, slice):
+        if isinstance(idx.step, Sym):
+            raise Unsupported("slice of a range with a symbolic step")
+        lo, hi, st = models.slice_indices(eng, idx, [eng.snum(zint(n), "int")], {})
+        first = to_z3(rng.lo, "int")
+        return models._SymRange(eng.snum(first + to_z3(lo, "int") * rng.step, "int"), eng.snum(first + to_z3(hi, "int") * rng.step, "int"), rng.step * int(st))
+    if isinstance(idx, Sym) and idx.kind == "int" and not eng.spec_mode:
+        # an index outside the range is an IndexError of the PROGRAM (a branch), whatever the carrier's index discipline for lists is
+        nz = zint(n)
+        if eng.branch(eng.sbool(z3.And(idx.z >= 0, idx.z < nz))):
+            return get(idx)
+        if eng.branch(eng.sbool(z3.And(idx.z < 0, idx.z >= -nz))):
+            return get(Sym(idx.z + nz, "int"))
+        raise ProgExc(IndexError, "range object index out of range")
+    iz = models.norm_index(eng, idx, eng.snum(zint(n), "int"), "range object index")
+    return get(Sym(iz, "int"))
+
+
+models._SymRange.__pyvc_getitem__ = lambda self, eng, idx: _range_getitem(eng, self, idx)
+
+
 def install():
+    import bisect as _bisect_mod
+    import operator as _operator
     import os
 
     import numpy as _np
 
     models.EXTRA_MODELS[_np.searchsorted] = _np_searchsorted
+    models.EXTRA_MODELS[_bisect_mod.bisect_right] = _bisect("right")
+    models.EXTRA_MODELS[_bisect_mod.bisect_left] = _bisect("left")
+    models.EXTRA_MODELS[divmod] = _b_divmod
+    models.EXTRA_MODELS[_operator.index] = _op_index
+    models.EXTRA_METHODS[(SArr, "searchsorted")] = _arr_searchsorted
+    models.EXTRA_METHODS[(SArr, "tolist")] = _arr_tolist
 
     models.EXTRA_MODELS[os.walk] = _os_walk
     models.EXTRA_MODELS[os.path.join] = _path_join
